@@ -1006,59 +1006,12 @@ def loop_rules(R, lib, zs):
         pf = zs.fn(pname)
         c = '%s~%s' % (cname, pname)
         R.instance('R1-loop', c, cf.loc)
-        okc, whyc = lookup_shape(cf, ckey)
-        okp, whyp = py_lookup_shape(pf, pkey)
+        okc, whyc = lookup_shape(cf, ckey, fold_global=lib.global_value)
+        okp, whyp = lookup_shape(pf, pkey, lang='py')
         if not okc:
             R.violation('R1-loop', c, cf.loc, 'C++ side: ' + whyc)
         elif not okp:
             R.violation('R1-loop', c, pf.loc, 'Python side: ' + whyp)
-
-
-def py_lookup_shape(pf, key):
-    """Python: `if start > query: break; match = t`  or  `if start <= query: match = t  elif start > query: break`."""
-    loops = [s for s in walk_stmts(pf.body) if s.k == 'loop']
-    if len(loops) != 1:
-        return False, 'expected one loop over the transitions'
-    body = loops[0].a[4]
-    keep = brk = False
-    # locals of the loop body that hold a field of the transition: they count as "the start" only when that field is `key`
-    holds = {}
-    for s in body:
-        if s.k == 'assign' and s.a[0].k == 'var' and s.a[1].k == 'field':
-            holds[s.a[0].a[0]] = s.a[1].a[1]
-    wrong = [v for v, fld in holds.items() if 'start' in v.lower() and fld != key]
-    if wrong:
-        return False, 'the loop compares the query with %s = transition.%s, not with transition.%s' % (wrong[0], holds[wrong[0]], key)
-
-    def is_start(txt):
-        return key in txt or any(v in txt for v, fld in holds.items() if fld == key)
-    for s in body:
-        if s.k == 'if':
-            c = s.a[0]
-            if c.k == 'bin' and c.a[0] in ('>', '<=', '<', '>='):
-                lt, rt, op = show(c.a[1]), show(c.a[2]), c.a[0]
-                start_left = is_start(lt)
-                if not start_left and is_start(rt):
-                    op = {'>': '<', '<': '>', '<=': '>=', '>=': '<='}[op]
-                    start_left = True
-                if not start_left:
-                    continue
-                if op == '>' and any(x.k == 'break' for x in s.a[1]):
-                    brk = True
-                elif op == '<=' and any(x.k == 'assign' for x in s.a[1]):
-                    keep = True
-                    for t in s.a[2]:
-                        if t.k == 'if' and any(x.k == 'break' for x in t.a[1]):
-                            c2 = t.a[0]
-                            if c2.k == 'bin' and c2.a[0] == '>':
-                                brk = True
-                elif op in ('>=', '<'):
-                    return False, 'the loop decides on %s: expected "start > query => break" / "start <= query => keep"' % show(c)
-        elif s.k == 'assign' and brk:
-            keep = True
-    if not (brk and keep):
-        return False, 'the loop does not keep the last transition whose start <= query'
-    return True, ''
 
 
 # -- normal form ----------------------------------------------------------------------------------------------------------------
